@@ -48,7 +48,7 @@ RULE = ('case = (world rt) 1-3 events in flight over the 6 routes of a 4-node to
         'no_result=True | send_to | send_all) or an awaited call, x peer handler behaviour per event (return / raise / delayed '
         'generator, distinct results) x {all sends in one burst, each send after the previous packet was written} x 2-4 segmentations '
         '| (world h) one hostile packet from a grammar (truncation at every offset, non-object JSON, missing/'
-        'extra keys, wrong JSON type per key, sizes up to 1 MiB, nesting, bad UTF-8, every single metadata key and every pair from '
+        'extra keys, wrong JSON type per key, a string as the notify flag naming a local event (with and without a logging receive firewall), sizes up to 1 MiB, nesting, bad UTF-8, every single metadata key and every pair from '
         'dir(Event()) + the attributes the dispatcher reads) against a victim under the real run() with an honest second peer | '
         '(world ser) dump/load round trips; every case executed once on fresh real objects; non-trivial = anything but a single '
         'uncut small event without firewall; distinct = distinct case description')
@@ -1099,12 +1099,20 @@ class Victim(BaseWorld, ghost.RunWorld):
             e.channels = ('app',)
         script = [self.act_connect, self.act_inflight, None, self.act_hostile, None, self.act_honest, None, self.act_honest_value]
         ghost.RunWorld.__init__(self, [], script=script, horizon=40, idle_needed=3)
+        fw = (None, 'allow') if spec.get('fw') else (None, None)     # a receive firewall that lets everything pass and logs what it was asked
         if role == 'S':
-            self.tree = Tree(self, 'V', 'server')
+            self.tree = Tree(self, 'V', 'server', fw=fw)
             self.launch = [{'up': False, 'sockkey': 'h'}, {'up': False, 'sockkey': 'c'}]
         else:
-            self.tree = Tree(self, 'V', 'client', peers=('ph', 'pc'))
+            self.tree = Tree(self, 'V', 'client', fw=fw, peers=('ph', 'pc'))
             self.launch = [{'up': True, 'peer': 'ph', 'ch': 'app'}, {'up': True, 'peer': 'pc', 'ch': 'app'}]
+        self.dispatched = []
+        self.disp_mark = 0
+        world = self
+
+        def tap(self, event, *a, **k):
+            world.dispatched.append(event.name)
+        self.tree.root.addHandler(handler(channel='*', priority=1000)(tap))     # every event dispatched in the victim's tree
         self.tree.root.register(self.root)
         while len(self.root):
             self.root.flush()
@@ -1133,6 +1141,7 @@ class Victim(BaseWorld, ghost.RunWorld):
 
     def act_hostile(self, w):
         self.hostile_at = self.iterations
+        self.disp_mark = len(self.dispatched)
         self.log.append(('hostile-delivered',))
         data = hostile_bytes(self.spec['hostile'])
         cut = self.spec.get('cut')
@@ -1234,7 +1243,46 @@ def judge_h(spec, w):
     for x in log:
         if x[0] == 'exc' and x[3] in ('go', 'push', 'remote', 'sentinel', 't0'):
             bad.append(('local-handler-failed:%s' % x[2], 'a local handler for %r raised %s' % (x[3], x[2])))
+    # the only events a packet can make the victim dispatch are the event it names (the name the receive firewall is asked
+    # about) and the feedback events derived from that name; everything else dispatched is what the victim dispatches anyway
+    stray = sorted(set(w.dispatched[w.disp_mark:]) - usual_names(spec) - derived_names(spec, w) - {'exception'})   # (the loop's own failure report)
+    if stray:
+        bad.append(('dispatched-unapproved-name', 'the packet made the victim dispatch event(s) %r: neither the event it names '
+                    '(the name a receive firewall is asked about) nor feedback derived from it' % (stray,)))
     return bad
+
+
+_USUAL = {}
+FEEDBACK = ('', '_success', '_failure', '_complete', '_done', '_value_changed')
+
+
+def usual_names(spec):
+    """names dispatched in the same scenario when the hostile peer sends the unmodified packet (call: with notify off and on)"""
+    key = (spec['victim'], spec['path'], spec.get('inflight'), bool(spec.get('fw')))
+    if key not in _USUAL:
+        names = set()
+        base = CALL_BASE if spec['path'] == 'call' else VALUE_BASE
+        for doc in ([dict(base, notify=False), dict(base, notify=True, success=True, failure=True)] if spec['path'] == 'call' else [base]):
+            w = run_h({'w': 'h', 'victim': spec['victim'], 'path': spec['path'], 'inflight': spec.get('inflight'), 'fw': spec.get('fw'),
+                       'cls': 'wellformed', 'hostile': {'kind': 'json', 'doc': doc}})
+            names |= set(w.dispatched)
+        _USUAL[key] = names
+    return _USUAL[key]
+
+
+def derived_names(spec, w):
+    named = set()
+    if spec.get('fw'):
+        named = {x[3] for x in w.log if x[0] == 'fw' and x[2] == 'recv' and x[4]}
+    else:
+        for raw in hostile_bytes(w.spec['hostile']).split(DELIM):
+            try:
+                doc = json.loads(raw.decode('utf-8'))
+            except (ValueError, RecursionError):
+                continue
+            if isinstance(doc, dict) and isinstance(doc.get('name'), str):
+                named.add(doc['name'])
+    return {n + sfx for n in named for sfx in FEEDBACK}
 
 
 def judge_meta(spec, w, base):
@@ -1300,6 +1348,11 @@ def cases_hostile(tier):
                         if type(v) is type(basedoc[k]) and v == basedoc[k]:
                             continue
                         yield dict(common, cls='wrong-type:%s:%s' % (k, jclass(v)), hostile={'kind': 'json', 'doc': dict(basedoc, **{k: v})})
+                if path == 'call':
+                    # `notify` is a flag on the wire; a string there must not become the name of an event that is dispatched
+                    for v in ('sentinel', 'go', 'q0', 'evil', 'th'):
+                        for fw in (False, True):
+                            yield dict(common, cls='notify-names-an-event', fw=fw, hostile={'kind': 'json', 'doc': dict(basedoc, notify=v)})
                 if path == 'value':
                     for i in (1, 2, 0.0, 1.0, '0', -1, 2 ** 70):
                         yield dict(common, cls='other-id', hostile={'kind': 'json', 'doc': dict(basedoc, id=i)})
